@@ -96,7 +96,10 @@ impl SdJwtVc {
     let metadata_url = {
       let origin = self.claims().iss.origin().ascii_serialization();
       let path = self.claims().iss.path();
-      format!("{origin}{WELL_KNOWN_VC_ISSUER}{path}").parse().unwrap()
+      // An issuer with an opaque origin (e.g. a DID or a `data:` URL) has no well-known metadata location.
+      format!("{origin}{WELL_KNOWN_VC_ISSUER}{path}")
+        .parse::<Url>()
+        .map_err(|e| Error::InvalidIssuerMetadata(anyhow::Error::new(e)))?
     };
     match resolver.resolve(&metadata_url).await {
       Err(ResolverErr::NotFound(_)) => Ok(None),
